@@ -15,3 +15,4 @@ n3=""; for f in selftest/refactors/R3-*.patch; do n3="$n3 $f C20"; done
 BASE_REV=3e9d072 ./selftest/noalarm.sh -b 8 $n3
 n4=""; for f in selftest/refactors/S3-*.patch selftest/refactors/T2-*.patch selftest/refactors/U3-*.patch selftest/refactors/V6-*.patch; do n4="$n4 $f C20"; done
 ./selftest/noalarm.sh -b 8 $n4
+./selftest/reach.sh 10
